@@ -481,8 +481,14 @@ def badPrims : Prims Unit where
   isShout := fun n => n == [115, 104, 111, 117, 116]
   global := fun _ _ => .ok ()
   isMut := fun _ => false
+  memberSel := fun _ _ => .ok []
+  member := fun _ _ _ => .ok ()
+  argMissing := .rt 0
+  mutSteps := fun _ => []
   mutMember := fun _ _ _ _ => .ok ((), ())
   setPath := fun _ _ _ => .ok ()
+  idx := fun v => .ok v
+  lvErr := .rt 0
   dscope := fun _ => none
   sscope := fun _ => none
 
@@ -523,8 +529,14 @@ def toyPrims : Prims (Option LTy) where
   isShout := fun n => globalClass n == some .impure
   global := fun _ _ => .ok none
   isMut := fun f => memberClass f == some .impure
+  memberSel := fun _ _ => .error (.rt 0)
+  member := fun _ _ _ => .error (.rt 0)
+  argMissing := .rt 0
+  mutSteps := fun _ => []
   mutMember := fun _ _ _ _ => .error (.rt 0)
   setPath := fun _ _ _ => .error (.rt 0)
+  idx := fun v => .ok v
+  lvErr := .rt 0
   dscope := fun _ => none
   sscope := fun _ => none
 
